@@ -127,10 +127,11 @@ def dhcp_of_frame(f):
     return parse_dhcp(f[14 + ihl + 8:])
 
 
-def exchange(client, mac, mtype, xid, options=(), wait=2.0, **kw):
-    """Send one DHCP message, return (list of reply frames for this xid, parsed first reply|None)."""
+def exchange(client, mac, mtype, xid, options=(), wait=2.0, src_ip="0.0.0.0", **kw):
+    """Send one DHCP message, return (list of reply frames for this xid, parsed first reply|None).
+    src_ip: IPv4 source address of the request (a renewing client uses its own address)."""
     pl = dhcp_payload(mtype, mac, xid, options=options, **kw)
-    client.send(frame(mac if len(mac) == 6 else (mac + b"\0" * 6)[:6], pl))
+    client.send(frame(mac if len(mac) == 6 else (mac + b"\0" * 6)[:6], pl, src_ip=src_ip))
 
     def mine(f):
         if not is_dhcp_reply(f):
